@@ -14,7 +14,7 @@ one() {
   fi
   res=""
   for p in $PROPS; do
-    out="$(A5_REPO="$WT" ./check $p $TIER 2>&1)"; rc=$?
+    out="$(A5_NOEVIDENCE=1 A5_REPO="$WT" ./check $p $TIER 2>&1)"; rc=$?
     rule="$(echo "$out" | grep -E '^FAIL' | head -3 | awk '{print $2":"$3}' | tr '\n' ' ')"
     res="$res\"$p\":{\"rc\":$rc,\"rules\":\"$rule\"},"
   done
